@@ -106,6 +106,7 @@ func (b *rawBackend) serve(c net.Conn) {
 	for _, h := range list(resp, "hop") {
 		fmt.Fprintf(&w, "%s: resp-%s\r\n", h, h)
 	}
+	chunked := boolOr(resp, "chunked", false)
 	if cn := list(resp, "conn"); len(cn) > 0 {
 		names := make([]string, len(cn))
 		for i, x := range cn {
@@ -113,7 +114,19 @@ func (b *rawBackend) serve(c net.Conn) {
 		}
 		fmt.Fprintf(&w, "Connection: %s\r\n", strings.Join(names, ", "))
 	}
-	chunked := boolOr(resp, "chunked", false)
+	if strOr(plan, "mode", "ok") == "abort_body" && boolOr(resp, "chunked", false) {
+		// chunked response cut short: head, one chunk, then the connection goes away without the final chunk
+		w.WriteString("Transfer-Encoding: chunked\r\n\r\n")
+		fmt.Fprintf(&w, "%x\r\n", len(payload))
+		w.Write(payload)
+		w.WriteString("\r\n")
+		c.Write(w.Bytes())
+		time.Sleep(50 * time.Millisecond)
+		if boolOr(plan, "rst", true) {
+			rst()
+		}
+		return
+	}
 	if strOr(plan, "mode", "ok") == "abort_body" {
 		fmt.Fprintf(&w, "Content-Length: %d\r\n\r\n", size+1000)
 		w.Write(payload)
